@@ -1,0 +1,162 @@
+//go:build verif
+
+// Verification hooks (add-only, compiled only with -tags verif): white-box dumps of the FIB name tree, the
+// hash-table FIB's real/virtual tables and the RIB tree, and a reset of the RIB package global between histories.
+// No behaviour of the package is changed.
+
+package table
+
+import (
+	enc "github.com/named-data/ndnd/std/encoding"
+)
+
+// VerifNextHop is a (face, cost) pair copied out of a table.
+type VerifNextHop struct {
+	Face uint64
+	Cost uint64
+}
+
+// VerifFibNode describes one node of the FIB name tree (or one real-table entry of the hash-table FIB).
+type VerifFibNode struct {
+	Path     enc.Name // components on the way from the root (tree) / the entry's stored name (hash table)
+	Key      uint64   // hash-table key (0 for the tree)
+	HasName  bool     // entry.name != nil
+	NameOK   bool     // entry.name is nil or equals Path
+	NextHops []VerifNextHop
+	Strategy enc.Name // nil if unset
+	Children int
+}
+
+func verifCopyNextHops(nhs []*FibNextHopEntry) []VerifNextHop {
+	out := make([]VerifNextHop, 0, len(nhs))
+	for _, nh := range nhs {
+		out = append(out, VerifNextHop{Face: nh.Nexthop, Cost: nh.Cost})
+	}
+	return out
+}
+
+func verifTreePath(e *fibStrategyTreeEntry) enc.Name {
+	path := enc.Name{}
+	for cur := e; cur != nil && cur.parent != nil; cur = cur.parent {
+		path = append(enc.Name{cur.component.Clone()}, path...)
+	}
+	return path
+}
+
+// VerifFibTreeNodes returns every node reachable from the root of the name-tree FIB (nil if the FIB is not a tree).
+func VerifFibTreeNodes() []VerifFibNode {
+	f, ok := FibStrategyTable.(*FibStrategyTree)
+	if !ok {
+		return nil
+	}
+	f.fibStrategyRWMutex.RLock()
+	defer f.fibStrategyRWMutex.RUnlock()
+	out := make([]VerifFibNode, 0)
+	var walk func(e *fibStrategyTreeEntry, path enc.Name)
+	walk = func(e *fibStrategyTreeEntry, path enc.Name) {
+		n := VerifFibNode{Path: path.Clone(), HasName: e.name != nil, NameOK: e.name == nil || e.name.Equal(path),
+			NextHops: verifCopyNextHops(e.nexthops), Children: len(e.children)}
+		if e.strategy != nil {
+			n.Strategy = e.strategy.Clone()
+		}
+		out = append(out, n)
+		for _, c := range e.children {
+			walk(c, append(path.Clone(), c.component.Clone()))
+		}
+	}
+	walk(f.root, enc.Name{})
+	return out
+}
+
+// VerifFibTreePrefixes returns the tree paths of the entries held in the fibPrefixes side map, with a flag telling
+// whether the entry is still reachable from the root under that path.
+func VerifFibTreePrefixes() (paths []enc.Name, attached []bool) {
+	f, ok := FibStrategyTable.(*FibStrategyTree)
+	if !ok {
+		return nil, nil
+	}
+	f.fibStrategyRWMutex.RLock()
+	defer f.fibStrategyRWMutex.RUnlock()
+	for _, e := range f.fibPrefixes {
+		p := verifTreePath(e)
+		paths = append(paths, p)
+		attached = append(attached, f.root.findExactMatchEntryEnc(p) == e)
+	}
+	return
+}
+
+// VerifFibHashTables dumps the hash-table FIB: m, the real table, the virtual table (key -> md) and the
+// virtual-name sets (key -> encoded name -> length). Keys are 64-bit name hashes.
+func VerifFibHashTables() (m int, realT []VerifFibNode, virt map[uint64]int, virtNames map[uint64]map[string]int, ok bool) {
+	f, isHT := FibStrategyTable.(*FibStrategyHashTable)
+	if !isHT {
+		return 0, nil, nil, nil, false
+	}
+	f.fibStrategyRWMutex.RLock()
+	defer f.fibStrategyRWMutex.RUnlock()
+	for k, e := range f.realTable {
+		n := VerifFibNode{Key: k, HasName: e.name != nil, NextHops: verifCopyNextHops(e.nexthops)}
+		if e.name != nil {
+			n.Path = e.name.Clone()
+		} else {
+			n.Path = enc.Name{}
+		}
+		n.NameOK = n.Path.Hash() == k
+		if e.strategy != nil {
+			n.Strategy = e.strategy.Clone()
+		}
+		realT = append(realT, n)
+	}
+	virt = make(map[uint64]int)
+	for k, v := range f.virtTable {
+		virt[k] = v.md
+	}
+	virtNames = make(map[uint64]map[string]int)
+	for k, set := range f.virtTableNames {
+		c := make(map[string]int)
+		for nb, l := range set {
+			c[nb] = l
+		}
+		virtNames[k] = c
+	}
+	return f.m, realT, virt, virtNames, true
+}
+
+// VerifRoute is a copy of a RIB route.
+type VerifRoute struct {
+	Face, Origin, Cost, Flags uint64
+}
+
+// VerifRibNode describes one node of the RIB tree.
+type VerifRibNode struct {
+	Path     enc.Name
+	HasName  bool
+	NameOK   bool
+	Routes   []VerifRoute
+	Children int
+}
+
+// VerifRibNodes returns every node reachable from the RIB root.
+func VerifRibNodes() []VerifRibNode {
+	out := make([]VerifRibNode, 0)
+	var walk func(e *RibEntry, path enc.Name)
+	walk = func(e *RibEntry, path enc.Name) {
+		n := VerifRibNode{Path: path.Clone(), HasName: e.Name != nil, NameOK: e.Name == nil || e.Name.Equal(path),
+			Children: len(e.children)}
+		for _, r := range e.routes {
+			n.Routes = append(n.Routes, VerifRoute{Face: r.FaceID, Origin: r.Origin, Cost: r.Cost, Flags: r.Flags})
+		}
+		out = append(out, n)
+		for c := range e.children {
+			walk(c, append(path.Clone(), c.component.Clone()))
+		}
+	}
+	walk(&Rib.RibEntry, enc.Name{})
+	return out
+}
+
+// VerifResetRib replaces the RIB root by an empty one (the table is a package global) and forgets readvertisers.
+func VerifResetRib() {
+	Rib.RibEntry = RibEntry{children: map[*RibEntry]bool{}}
+	readvertisers = make([]RibReadvertise, 0)
+}
